@@ -576,7 +576,8 @@ impl BuilderArea {
             ["chback", eref, kind, nfront] => {
                 // the child iterators are forward iterators in the crate as it is; should they ever offer `next_back`, front and back
                 // reads of ONE iterator must tile the children: `nfront` items from the front, then everything from the back, must be the
-                // forward sequence (checked on the implementation only; the model answers `ok`)
+                // forward sequence (checked on the implementation only, on two FRESH red trees over the node's green tree -- an element
+                // that exists already is handed out as it is, whatever offset the iterator computed; the model answers `ok`)
                 let Some(id) = eref.strip_prefix('e').and_then(|s| s.parse::<usize>().ok()) else { return Some("bad-op".into()) };
                 let Some((_t, e)) = self.red.elems.get(id).cloned() else { return Some("bad-op".into()) };
                 let NodeOrToken::Node(n) = e else { return Some("ok".into()) };
@@ -588,8 +589,10 @@ impl BuilderArea {
                     let mixed: Option<Vec<(bool, u32, u32)>>;
                     if *kind == "nodes" {
                         let key = |x: &SyntaxNode<K>| (true, u32::from(x.text_range().start()), u32::from(x.text_range().end()));
-                        fwd = n.children().map(key).collect();
-                        let mut p = Probe(n.children());
+                        let fresh_a: SyntaxNode<K> = SyntaxNode::new_root(n.green().clone());
+                        let fresh_b: SyntaxNode<K> = SyntaxNode::new_root(n.green().clone());
+                        fwd = fresh_a.children().map(key).collect();
+                        let mut p = Probe(fresh_b.children());
                         let mut front = vec![];
                         for _ in 0..nfront {
                             if let Some(x) = p.0.next() { front.push(key(x)); }
@@ -609,8 +612,10 @@ impl BuilderArea {
                         mixed = if avail { Some(front) } else { None };
                     } else {
                         let key = |x: SyntaxElementRef<'_, K>| (x.as_node().is_some(), u32::from(x.text_range().start()), u32::from(x.text_range().end()));
-                        fwd = n.children_with_tokens().map(key).collect();
-                        let mut p = Probe(n.children_with_tokens());
+                        let fresh_a: SyntaxNode<K> = SyntaxNode::new_root(n.green().clone());
+                        let fresh_b: SyntaxNode<K> = SyntaxNode::new_root(n.green().clone());
+                        fwd = fresh_a.children_with_tokens().map(key).collect();
+                        let mut p = Probe(fresh_b.children_with_tokens());
                         let mut front = vec![];
                         for _ in 0..nfront {
                             if let Some(x) = p.0.next() { front.push(key(x)); }
@@ -628,6 +633,26 @@ impl BuilderArea {
                         back.reverse();
                         front.extend(back);
                         mixed = if avail { Some(front) } else { None };
+                    }
+                    // `nth(n)` and then the rest of ONE iterator over a third fresh tree: the forward sequence from `n` on (an iterator that
+                    // loses track of its offset while skipping creates the following children at the wrong place -- visible only where
+                    // they do not exist yet)
+                    let fresh_c: SyntaxNode<K> = SyntaxNode::new_root(n.green().clone());
+                    let skipped: Vec<(bool, u32, u32)> = if *kind == "nodes" {
+                        let mut it = fresh_c.children();
+                        let mut v: Vec<(bool, u32, u32)> = it.nth(nfront).into_iter().map(|x| (true, u32::from(x.text_range().start()), u32::from(x.text_range().end()))).collect();
+                        v.extend(it.map(|x| (true, u32::from(x.text_range().start()), u32::from(x.text_range().end()))));
+                        v
+                    } else {
+                        let mut it = fresh_c.children_with_tokens();
+                        let k2 = |x: SyntaxElementRef<'_, K>| (x.as_node().is_some(), u32::from(x.text_range().start()), u32::from(x.text_range().end()));
+                        let mut v: Vec<(bool, u32, u32)> = it.nth(nfront).into_iter().map(k2).collect();
+                        v.extend(it.map(k2));
+                        v
+                    };
+                    let want: Vec<(bool, u32, u32)> = fwd.iter().skip(nfront).cloned().collect();
+                    if skipped != want {
+                        panic!("nth({}) and then the rest of one fresh {} iterator: {:?}, forwards from there: {:?}", nfront, kind, skipped, want);
                     }
                     (fwd, mixed)
                 });
